@@ -457,4 +457,236 @@ theorem buildData_chars (env : Env) : ∀ (l sb : List Nat) (strings : List (Lis
   | nil => intro sb strings rules; simp
   | cons c rest ih => intro sb strings rules; simp [buildData, ih]
 
+/-! ### the scanner: references are valid, the integer rules denote the scanned pieces -/
+
+def RefOk (env : Env) : Tok → Prop
+  | .ch _ => True
+  | .ref n => (0 ≤ n → isCaptureSlot env n.toNat = true) ∧ (n < 0 → -4 ≤ n)
+
+def NamesOk (env : Env) : Prop := ∀ name num, env.names.lookup name = some num → isCaptureSlot env num = true
+
+theorem lookup_mem {α β : Type} [BEq α] : ∀ (l : List (α × β)) (a : α) (b : β), l.lookup a = some b → ∃ a', (a', b) ∈ l := by
+  intro l
+  induction l with
+  | nil => intro a b h; simp at h
+  | cons x xs ih =>
+    intro a b h
+    obtain ⟨k, v⟩ := x
+    simp only [List.lookup] at h
+    split at h
+    · simp at h; subst h; exact ⟨k, by simp⟩
+    · obtain ⟨a', h'⟩ := ih a b h; exact ⟨a', by simp [h']⟩
+
+theorem envOk_names (env : Env) (h : envOk env = true) : NamesOk env ∧ isCaptureSlot env 0 = true := by
+  simp only [envOk, Bool.and_eq_true, List.all_eq_true] at h
+  refine ⟨?_, h.1⟩
+  intro name num hl
+  obtain ⟨a', hm⟩ := lookup_mem env.names name num hl
+  exact h.2 (a', num) hm
+
+theorem ecmaDigits_ok (env : Env) : ∀ (s : List Nat) (newcap pos : Nat) (best : Option (Nat × Nat)) r,
+    (∀ b, best = some b → isCaptureSlot env b.1 = true) →
+    ecmaDigits env s newcap pos best = some (some r) → isCaptureSlot env r.1 = true := by
+  intro s
+  induction s with
+  | nil => intro newcap pos best r hb h; simp [ecmaDigits] at h; exact hb r h
+  | cons c rest ih =>
+    intro newcap pos best r hb h
+    simp only [ecmaDigits] at h
+    split at h
+    · split at h
+      · simp at h
+      · refine ih _ _ _ r ?_ h
+        intro b hbb
+        split at hbb
+        · rename_i hs; simp at hbb; subst hbb; exact hs
+        · exact hb b hbb
+    · simp at h; exact hb r h
+
+theorem scanDollar_ok (isWord : Nat → Bool) (env : Env) (hn : NamesOk env) (h0 : isCaptureSlot env 0 = true) (s : List Nat) (tok : Tok) (k : Nat)
+    (h : scanDollar isWord env s = .ok (tok, k)) : RefOk env tok := by
+  unfold scanDollar at h
+  split at h
+  · simp [literalDollar] at h; obtain ⟨rfl, _⟩ := h; simp [RefOk]
+  · simp only [] at h
+    repeat' split at h
+    all_goals (try (simp [literalDollar] at h))
+    all_goals (try (obtain ⟨rfl, _⟩ := h))
+    all_goals (try (simp_all [RefOk]; done))
+    all_goals (rename_i heq hr; simp only [RefOk, Int.toNat_natCast]; refine ⟨fun _ => ?_, fun hneg => by omega⟩)
+    · refine ecmaDigits_ok env _ _ _ _ (_, _) ?_ heq
+      intro b hb
+      split at hb
+      · rename_i hs; simp at hb; subst hb; exact hs
+      · simp at hb
+    · exact hn _ _ heq
+
+theorem scanLoop_ok (isWord : Nat → Bool) (env : Env) (hn : NamesOk env) (h0 : isCaptureSlot env 0 = true) :
+    ∀ (s : List Nat) (skip : Nat) (toks : List Tok), scanLoop isWord env s skip = .ok toks → ∀ t ∈ toks, RefOk env t := by
+  intro s
+  induction s with
+  | nil => intro skip toks h; cases skip <;> (simp [scanLoop] at h; subst h; simp)
+  | cons c rest ih =>
+    intro skip toks h
+    cases skip with
+    | succ k => simp only [scanLoop] at h; exact ih k toks h
+    | zero =>
+      simp only [scanLoop] at h
+      split at h
+      · split at h
+        · simp at h
+        · rename_i tok used hd
+          split at h
+          · simp at h
+          · rename_i toks' hl
+            simp at h; subst h
+            intro t ht
+            simp at ht
+            rcases ht with rfl | ht
+            · exact scanDollar_ok isWord env hn h0 _ _ _ hd
+            · exact ih _ _ hl t ht
+      · split at h
+        · simp at h
+        · rename_i toks' hl
+          simp at h; subst h
+          intro t ht
+          simp at ht
+          rcases ht with rfl | ht
+          · simp [RefOk]
+          · exact ih _ _ hl t ht
+
+/-- what a rule integer can be -/
+def RuleOk (env : Env) (r : Int) : Prop :=
+  0 ≤ r ∨ (-4 ≤ r ∧ r ≤ -1) ∨ ∃ n, isCaptureSlot env n = true ∧ r = -5 - (slotOf env n : Int)
+
+theorem buildData_rules (env : Env) : ∀ (toks : List Tok) (sb : List Nat) (strings : List (List Nat)) (rules : List Int),
+    (∀ t ∈ toks, RefOk env t) → (∀ r ∈ rules, RuleOk env r) →
+    ∀ r ∈ (buildData env toks sb strings rules).rules, RuleOk env r := by
+  intro toks
+  induction toks with
+  | nil =>
+    intro sb strings rules _ hr r hm
+    simp only [buildData] at hm
+    split at hm
+    · simp at hm
+      rcases hm with hm | rfl
+      · exact hr r hm
+      · left; omega
+    · exact hr r hm
+  | cons t rest ih =>
+    intro sb strings rules ht hr
+    cases t with
+    | ch c => simp only [buildData]; exact ih _ _ _ (fun t h => ht t (by simp [h])) hr
+    | ref n =>
+      simp only [buildData]
+      have hrefok : RefOk env (.ref n) := ht _ (by simp)
+      have hnew : RuleOk env (-4 - 1 - (if 0 ≤ n then (slotOf env n.toNat : Int) else n)) := by
+        by_cases hn : 0 ≤ n
+        · right; right
+          exact ⟨n.toNat, hrefok.1 hn, by simp [hn]⟩
+        · right; left
+          have := hrefok.2 (by omega)
+          simp [hn]; omega
+      by_cases hsb : sb ≠ []
+      · simp only [if_pos hsb]
+        refine ih _ _ _ (fun t h => ht t (by simp [h])) ?_
+        intro r hm
+        simp only [List.mem_append, List.mem_singleton] at hm
+        rcases hm with (hm | hm) | hm
+        · exact hr r hm
+        · left; omega
+        · rw [hm]; exact hnew
+      · simp only [if_neg hsb]
+        refine ih _ _ _ (fun t h => ht t (by simp [h])) ?_
+        intro r hm
+        simp only [List.mem_append, List.mem_singleton] at hm
+        rcases hm with hm | hm
+        · exact hr r hm
+        · rw [hm]; exact hnew
+
+/-- the piece a reference node stands for -/
+def refPiece (env : Env) (n : Int) : Piece :=
+  if 0 ≤ n then .group (slotOf env n.toNat)
+  else if n = -1 then .leftPortion else if n = -2 then .rightPortion else if n = -3 then .lastGroup else .wholeString
+
+/-- the pieces a token list stands for (`sb` = pending literal) -/
+def piecesOf (env : Env) : List Tok → List Nat → List Piece
+  | [], sb => if sb ≠ [] then [.lit sb] else []
+  | .ch c :: rest, sb => piecesOf env rest (sb ++ [c])
+  | .ref n :: rest, sb => (if sb ≠ [] then [.lit sb] else []) ++ refPiece env n :: piecesOf env rest []
+
+def RulesWF (strings : List (List Nat)) (rules : List Int) : Prop := ∀ r ∈ rules, 0 ≤ r → r.toNat < strings.length
+
+theorem decodeRule_append (strings ex : List (List Nat)) (r : Int) (h : 0 ≤ r → r.toNat < strings.length) :
+    decodeRule (strings ++ ex) r = decodeRule strings r := by
+  unfold decodeRule
+  by_cases h0 : 0 ≤ r
+  · simp [h0, List.getD_eq_getElem?_getD, List.getElem?_append_left (h h0)]
+  · simp [h0]
+
+theorem map_decodeRule_append (strings ex : List (List Nat)) (rules : List Int) (h : RulesWF strings rules) :
+    rules.map (decodeRule (strings ++ ex)) = rules.map (decodeRule strings) := by
+  apply List.map_congr_left
+  intro r hr
+  exact decodeRule_append strings ex r (h r hr)
+
+theorem decodeRule_ref (env : Env) (strings : List (List Nat)) (n : Int) (h : RefOk env (.ref n)) :
+    decodeRule strings (-4 - 1 - (if 0 ≤ n then (slotOf env n.toNat : Int) else n)) = refPiece env n := by
+  unfold decodeRule refPiece
+  by_cases hn : 0 ≤ n
+  · have h1 : ¬ (0 : Int) ≤ -4 - 1 - (slotOf env n.toNat : Int) := by omega
+    have h2 : -4 - 1 - (slotOf env n.toNat : Int) < -4 := by omega
+    have h3 : (-5 - (-4 - 1 - (slotOf env n.toNat : Int))).toNat = slotOf env n.toNat := by omega
+    simp only [hn, if_true, if_neg h1, if_pos h2, h3]
+  · have hlo := h.2 (by omega)
+    have : n = -1 ∨ n = -2 ∨ n = -3 ∨ n = -4 := by omega
+    rcases this with rfl | rfl | rfl | rfl <;> simp
+
+theorem buildData_pieces (env : Env) : ∀ (toks : List Tok) (sb : List Nat) (strings : List (List Nat)) (rules : List Int),
+    (∀ t ∈ toks, RefOk env t) → RulesWF strings rules →
+    (buildData env toks sb strings rules).pieces = rules.map (decodeRule strings) ++ piecesOf env toks sb := by
+  intro toks
+  induction toks with
+  | nil =>
+    intro sb strings rules _ hwf
+    simp only [buildData, piecesOf]
+    by_cases hsb : sb ≠ []
+    · simp only [if_pos hsb, ReplacerData.pieces, List.map_append, map_decodeRule_append strings [sb] rules hwf]
+      simp [decodeRule]
+    · simp [if_neg hsb, ReplacerData.pieces]
+  | cons t rest ih =>
+    intro sb strings rules ht hwf
+    cases t with
+    | ch c => simp only [buildData, piecesOf]; exact ih _ _ _ (fun t h => ht t (by simp [h])) hwf
+    | ref n =>
+      have hrefok : RefOk env (.ref n) := ht _ (by simp)
+      have hneg : ¬ (0 : Int) ≤ -4 - 1 - (if 0 ≤ n then (slotOf env n.toNat : Int) else n) := by
+        by_cases hn : 0 ≤ n
+        · simp only [hn, if_true]; omega
+        · have := hrefok.2 (by omega); simp only [hn, if_false]; omega
+      simp only [buildData, piecesOf]
+      by_cases hsb : sb ≠ []
+      · simp only [if_pos hsb]
+        have hwf' : RulesWF (strings ++ [sb]) (rules ++ [(strings.length : Int)] ++ [-4 - 1 - (if 0 ≤ n then (slotOf env n.toNat : Int) else n)]) := by
+          intro r hm h0
+          simp only [List.mem_append, List.mem_singleton] at hm
+          rcases hm with (hm | hm) | hm
+          · have := hwf r hm h0; simp; omega
+          · subst hm; simp
+          · subst hm; exact absurd h0 hneg
+        rw [ih _ _ _ (fun t h => ht t (by simp [h])) hwf']
+        simp only [List.map_append, List.map_cons, List.map_nil, decodeRule_ref env _ n hrefok,
+          map_decodeRule_append strings [sb] rules hwf]
+        simp [decodeRule]
+      · simp only [if_neg hsb]
+        have hwf' : RulesWF strings (rules ++ [-4 - 1 - (if 0 ≤ n then (slotOf env n.toNat : Int) else n)]) := by
+          intro r hm h0
+          simp only [List.mem_append, List.mem_singleton] at hm
+          rcases hm with hm | hm
+          · exact hwf r hm h0
+          · subst hm; exact absurd h0 hneg
+        rw [ih _ _ _ (fun t h => ht t (by simp [h])) hwf']
+        simp only [List.map_append, List.map_cons, List.map_nil, decodeRule_ref env _ n hrefok]
+        simp
+
 end RegexVerif.Lemmas.Replace
